@@ -32,6 +32,7 @@ Record cert := mkCert {
                            signature valid, in validity period, no unhandled critical extension
                            left after the key extension was marked handled) *)
   c_exts : list ext;    (* cert.Extensions in order *)
+  c_self_signed : bool; (* observed: the certificate's signature verifies under its own public key *)
   c_key : Z;            (* the certificate's own (ECDSA) public key *)
   c_pkix_ok : bool      (* x509.MarshalPKIXPublicKey(cert.PublicKey) succeeds *)
 }.
@@ -71,6 +72,11 @@ Definition sig_verify (k : nat) (m : sbytes) (s : sigterm) : bool :=
   | SigGarbage => false
   end.
 
+(* does PubKeyFromCertChain check the certificate's own signature in addition to
+   x509 Verify (which accepts a certificate found in the root pool as is)?
+   regenerated from the source *)
+Definition checks_self_sig : bool := 0 <? tls_self_signature_checks.
+
 (* PubKeyFromCertChain *)
 Definition pubkey_from_chain (chain : list cert) : outcome nat :=
   if negb (Z.eqb (Z.of_nat (length chain)) tls_chain_len) then Err E_CHAIN_LEN else
@@ -81,6 +87,7 @@ Definition pubkey_from_chain (chain : list cert) : outcome nat :=
       | None => Err E_NO_EXT
       | Some e =>
           if negb (c_verify_ok c) then Err E_VERIFY else
+          if checks_self_sig && negb (c_self_signed c) then Err E_VERIFY else
           match e_value e with
           | ExtGarbage => Err E_ASN1
           | SignedKey PkGarbage _ => Err E_PUBKEY
